@@ -16,6 +16,14 @@ def parse_sri(text):
     hs.sort(key=lambda h: RANK[h[0]])
     return hs
 
+DLEN = {"sha1": 20, "sha256": 32, "sha384": 48, "sha512": 64, "xxh3": 16}
+def well_formed(hs):
+    """every hash is the base64 text of a digest of its algorithm's length (what the cache itself writes)"""
+    try:
+        return bool(hs) and all(len(base64.b64decode(d, validate=True)) == DLEN[a] for a, d in hs)
+    except Exception:
+        return False
+
 def sri_text(hs):
     return " ".join(f"{a}-{d}" for a, d in hs)
 
@@ -26,6 +34,8 @@ class RefCache:
     def __init__(self):
         self.idx, self.store, self.w, self.r = {}, {}, {}, {}
         self.ext = {}
+        self.l = {}
+        self.buck = set()                                # keys whose bucket file exists
         self.buckets = {}
         self.tainted = False
 
@@ -35,16 +45,35 @@ class RefCache:
 
     def _entry(self, key, hs, size, time, meta, raw):
         return {"key": key, "sri": sri_text(hs), "size": size, "time": time,
-                "meta": json.dumps(meta, separators=(",", ":"), ensure_ascii=False).encode().hex(), "raw": raw}
+                "meta": json.dumps(meta, separators=(",", ":"), ensure_ascii=False, sort_keys=True).encode().hex(), "raw": raw}
 
     def _read_addr(self, hs):
         a = addr_of(hs)
         if a not in self.store:
             return ("err", "Io")
         d = self.store[a]
+        if isinstance(d, tuple):                         # a link: the caller's file as it is now
+            if d[1] in self.ext and self.ext[d[1]] is None:
+                return None
+            d = self.ext.get(d[1])
+            if d is None:
+                return ("err", "Io")
         if a[1] != base64.b64encode(hashes.digest(a[0], d)).decode():
             return ("err", "Integrity")
         return ("ok", "bytes", d.hex())
+
+    def _link(self, a, target, data):
+        """the address [a] comes to hold a link to the caller's file; False = no opinion from here on"""
+        cur = self.store.get(a)
+        if isinstance(cur, tuple):
+            t = self.ext.get(cur[1])
+            if t is None or t != data:
+                self.tainted = True; return False        # an older link whose target is gone or holds other bytes: no opinion
+        elif cur is None:
+            self.store[a] = ("link", target)
+        elif cur != data:
+            self.tainted = True; return False
+        return True
 
     def _lookup(self, key):
         return self.idx.get(key)
@@ -57,6 +86,32 @@ class RefCache:
             # reference has no opinion from here on (the Coq model does: Sess.v OAbandon)
             self._abstain = True
             return None
+        if o in ("chdir", "cmptree", "refcheck"):
+            return None
+        if o == "damage" and op["loc"].startswith("e:") and not self.tainted:
+            # a file of the caller (a link target), not the cache: the reference keeps track of its bytes
+            name = op["loc"][2:]
+            if any(l["target"] == name for l in self.l.values()):
+                self.tainted = True                      # changed under an open linker: no opinion
+            elif op["kind"] == "set":
+                self.ext[name] = bytes.fromhex(op["data"])
+            elif op["kind"] == "del":
+                self.ext.pop(name, None)
+            else:
+                self.ext[name] = None                    # directory / symlink in its place: no opinion when it is used
+            return None
+        if o == "damage" and op["loc"].startswith("c:content-v2/") and op["kind"] in ("set", "rot", "del") and not self.tainted:
+            # the bytes under an address are replaced behind the cache's back: the reference knows what is there now
+            parts = op["loc"][2:].split("/")
+            if len(parts) == 5:
+                try:
+                    a = (parts[1], base64.b64encode(bytes.fromhex(parts[2] + parts[3] + parts[4])).decode())
+                except ValueError:
+                    a = None
+                if a is not None and not self.w and not self.r:
+                    if op["kind"] == "del": self.store.pop(a, None)
+                    else: self.store[a] = bytes.fromhex(op["data"])
+                    return None
         if o == "damage":
             self.tainted = True
             if op["kind"] == "set" and op["loc"].startswith("c:index-v5/"):
@@ -74,13 +129,30 @@ class RefCache:
                 if loc in self.buckets:
                     try:
                         obj = ref.naive_find(self.buckets[loc], key.decode())
+                        # records outside the language the cache writes (fields missing, an integrity that is no digest):
+                        # the properties do not say which of them count; no opinion
+                        import hashlib as _hl
+                        for ln in self.buckets[loc].split(b"\n"):
+                            pr = (ln[:-1] if ln.endswith(b"\r") else ln).split(b"\t")
+                            if len(pr) == 2 and _hl.sha256(pr[1]).hexdigest().encode() == pr[0]:
+                                try:
+                                    if not isinstance(json.loads(pr[1].decode("utf-8")), dict):
+                                        return None          # a well-hashed record that is not a JSON object
+                                except Exception:
+                                    pass
+                        for o2 in ref.naive_entries(self.buckets[loc]):
+                            if o2.get("key") == key.decode():
+                                if not all(f in o2 for f in ("integrity", "time", "size", "metadata")):
+                                    return None
+                                if o2["integrity"] is not None and not well_formed(parse_sri(o2["integrity"]) or []):
+                                    return None
                     except Exception:
                         return None
                     if obj is None:
                         return ("ok", "meta", None)
                     hs = parse_sri(obj["integrity"])
-                    if hs is None:
-                        return None
+                    if hs is None or not well_formed(hs):
+                        return None                      # a record whose integrity is not a digest: no opinion
                     raw = obj.get("raw_metadata")
                     return ("ok", "meta", {"key": op["key"], "sri": sri_text(hs), "time": obj["time"], "size": obj["size"],
                             "meta": json.dumps(obj["metadata"], separators=(",", ":"), ensure_ascii=False, sort_keys=True).encode().hex(),
@@ -93,6 +165,7 @@ class RefCache:
             hs = [(algo, base64.b64encode(hashes.digest(algo, data)).decode())]
             self.store[hs[0]] = data
             if o == "write":
+                self.buck.add(op["key"])
                 self.idx[op["key"]] = self._entry(op["key"], hs, len(data), self._now(i), None, None)
             return ("ok", "sri", sri_text(hs))
         if o == "open":
@@ -122,20 +195,81 @@ class RefCache:
             if "size" in wo and wo["size"] != len(data):
                 return ("err", "SizeMismatch", wo["size"], len(data))
             if "key" in wo:
+                self.buck.add(wo["key"])
                 t = int(wo["time"]) if "time" in wo else self._now(i)
                 self.idx[wo["key"]] = self._entry(wo["key"], final, wo.get("size", len(data)), t, wo.get("meta"), wo.get("raw"))
                 return ("ok", "sri", sri_text(final))
             return ("ok", "sri", sri_text(hs))
+        if o == "link_to":
+            d = self.ext.get(op["target"])
+            if d is None:
+                self.tainted = True; return None
+            hs = [("sha256", base64.b64encode(hashes.digest("sha256", d)).decode())]
+            if not self._link(hs[0], op["target"], d):
+                return None
+            if "key" in op:
+                self.buck.add(op["key"])
+                self.idx[op["key"]] = self._entry(op["key"], hs, len(d), self._now(i), None, None)
+            return ("ok", "sri", sri_text(hs))
+        if o == "lopen":
+            d = self.ext.get(op["target"])
+            if d is None:
+                self.tainted = True; return None
+            self.l[op["l"]] = {"op": op, "target": op["target"], "data": d, "pos": 0}
+            return ("ok", "unit")
+        if o == "lchunk":
+            l = self.l.get(op["l"])
+            if l is None: return ("badarg",)
+            c = l["data"][l["pos"]: l["pos"] + op["n"]]; l["pos"] += len(c)
+            return ("ok", "bytes", c.hex())
+        if o == "ldrop":
+            return ("ok", "unit") if self.l.pop(op["l"], None) is not None else ("badarg",)
+        if o == "lcommit":
+            l = self.l.pop(op["l"], None)
+            if l is None: return ("badarg",)
+            lo, data = l["op"], l["data"]
+            algo = "sha256" if lo.get("plain") else lo.get("algo", "sha256")
+            hs = [(algo, base64.b64encode(hashes.digest(algo, data)).decode())]
+            final = hs
+            if not self._link(hs[0], l["target"], data):     # the link is made first, like a writer's content
+                return None
+            if "sri" in lo and not lo.get("plain"):
+                decl = parse_sri(lo["sri"])
+                if not any(h == hs[0] for h in decl):
+                    return ("err", "Integrity")
+                final = decl
+            if "size" in lo and not lo.get("plain") and lo["size"] != len(data):
+                return ("err", "SizeMismatch", lo["size"], len(data))
+            if "key" in lo:
+                self.buck.add(lo["key"])
+                plain = lo.get("plain")
+                t = int(lo["time"]) if ("time" in lo and not plain) else self._now(i)
+                self.idx[lo["key"]] = self._entry(lo["key"], final, len(data) if plain else lo.get("size", len(data)), t,
+                                                  None if plain else lo.get("meta"), None if plain else lo.get("raw"))
+            return ("ok", "sri", sri_text(final))
         if o == "insert":
             hs = parse_sri(op["sri"]) if "sri" in op else None
             t = int(op["time"]) if "time" in op else self._now(i)
+            self.buck.add(op["key"])
             if hs is None:
                 self.idx.pop(op["key"], None)
                 return ("ok", "sri", "sha1-deadbeef")
             self.idx[op["key"]] = self._entry(op["key"], hs, op.get("size", 0), t, op.get("meta"), op.get("raw"))
             return ("ok", "sri", sri_text(hs))
         if o in ("delete", "remove") or (o == "remove_opts" and not op.get("fully")):
+            self.buck.add(op["key"])
             self.idx.pop(op["key"], None)
+            return ("ok", "unit")
+        if o == "remove_opts" and op.get("fully"):
+            if op["key"] not in self.buck:
+                self.tainted = True; return None         # no bucket file for this key: the call fails (nothing to remove)
+            self.buck.discard(op["key"])
+            e = self.idx.pop(op["key"], None)
+            if e is not None:
+                hs = parse_sri(e["sri"])
+                if hs is None:
+                    self.tainted = True; return None
+                self.store.pop(addr_of(hs), None)
             return ("ok", "unit")
         if o in ("find", "metadata"):
             e = self._lookup(op["key"])
@@ -147,7 +281,10 @@ class RefCache:
         if o == "read_hash":
             return self._read_addr(parse_sri(op["sri"]))
         if o == "exists":
-            return ("ok", "bool", addr_of(parse_sri(op["sri"])) in self.store)
+            a = addr_of(parse_sri(op["sri"]))
+            if isinstance(self.store.get(a), tuple) and self.ext.get(self.store[a][1]) is None:
+                return None                              # a link whose target is gone
+            return ("ok", "bool", a in self.store)
         if o == "remove_hash":
             a = addr_of(parse_sri(op["sri"]))
             if a in self.store:
@@ -159,7 +296,9 @@ class RefCache:
                 return None
             return ("ok", "list", [("meta", dict(e, modelled=True)) for e in self.idx.values()])
         if o == "clear":
-            self.idx.clear(); self.store.clear(); self._cleared = True
+            if self.w or self.l:
+                self.tainted = True; return None         # open writers lose their temp files: no opinion on what they do next
+            self.idx.clear(); self.store.clear(); self.buck.clear(); self._cleared = True
             return ("ok", "unit")
         return None
 
